@@ -355,7 +355,30 @@ def run_history(ctx, rng, idx, script=None):
             # close with references still held: everything must be released
             w.lend_as_argument(0, "twice", 0)
             w.quiesce(rng)
-            w.a.close()
+            if rng.random() < .5:
+                # a close that fails half-way: sending the close request fails with something that is not an end-of-stream (the default
+                # configuration reports it to the caller) - the connection is closed all the same and holds nothing
+                class FailingWrite(object):
+                    def __init__(self, inner):
+                        self._inner = inner
+
+                    def write(self, data):
+                        raise OSError(5, "Input/output error (injected into the write of the close request)")
+
+                    def __getattr__(self, name):
+                        return getattr(self._inner, name)
+                w.a._channel.stream = FailingWrite(w.a._channel.stream)
+                try:
+                    w.a.close()
+                    bad.append(("close-swallowed-hook-error", "close() did not report the failure to send the close request"))
+                except EOFError:
+                    pass
+                except Exception:
+                    ctx.count("closes_that_failed_half_way")
+                if not w.a.closed:
+                    bad.append(("close-failed-not-closed", "after a close() that failed half-way the connection does not report closed"))
+            else:
+                w.a.close()
             w.quiesce(rng)
             if w.a._local_objects._dict:
                 bad.append(("close-keeps-objects", "closing the connection left %d entries in the table of lent objects" % len(w.a._local_objects._dict)))
